@@ -1251,3 +1251,496 @@ Proof.
     | |- context [match ?x with _ => _ end] => destruct x; try discriminate
     end.
 Qed.
+
+(** * Life cycle *)
+
+Definition expired_of (w : swap) : swap := with_status w Expired (sw_closed w).
+
+Lemma expire_fold_lookup e : forall l s,
+  Inv e s -> NoDup l -> (forall x, In x l -> In x (s_byblock s)) ->
+  forall j, match lookup j (s_swaps s) with
+  | None => lookup j (s_swaps (fold_left expire_one l s)) = None
+  | Some u =>
+      (In (sw_expire u, j) l /\ sw_status u = Open ->
+         lookup j (s_swaps (fold_left expire_one l s)) = Some (expired_of u)) /\
+      (~ (In (sw_expire u, j) l /\ sw_status u = Open) ->
+         lookup j (s_swaps (fold_left expire_one l s)) = Some u)
+  end.
+Proof.
+  induction l as [|[h i] r IH]; intros s I ND Hall j; cbn [fold_left].
+  - destruct (lookup j (s_swaps s)) as [u|]; [|reflexivity]. split; [intros [[] _]|reflexivity].
+  - inversion ND as [|? ? Hn ND']; subst.
+    destruct (expire_one_inv e s h i I (Hall _ (or_introl eq_refl))) as (w & Hl & Ho & He & Eq & I1).
+    assert (Hall' : forall x, In x r -> In x (s_byblock (expire_one s (h, i)))).
+    { intros x Hx. rewrite Eq. sproj. apply ix_del_in. split; [intros ->; contradiction|].
+      apply Hall. right. exact Hx. }
+    specialize (IH (expire_one s (h, i)) I1 ND' Hall' j).
+    assert (Esw : s_swaps (expire_one s (h, i)) = set_swap i (with_status w Expired (sw_closed w)) (s_swaps s))
+      by (rewrite Eq; reflexivity).
+    rewrite Esw in IH. rewrite lookup_set in IH.
+    destruct (id_eqb_spec j i) as [->|N].
+    + rewrite Hl. destruct IH as [_ IH2]. split.
+      * intros _. apply IH2. intros [_ D]. cbn in D. discriminate.
+      * intros D. exfalso. apply D. split; [left; rewrite He; reflexivity|exact Ho].
+    + destruct (lookup j (s_swaps s)) as [u|]; [|exact IH]. destruct IH as [IH1 IH2]. split.
+      * intros [[E|Hin] Hu]; [inversion E; congruence|]. apply IH1. auto.
+      * intros D. apply IH2. intros [Hin Hu]. apply D. split; [right; exact Hin|exact Hu].
+Qed.
+
+Lemma update_expired_lookup e s j : Inv e s ->
+  lookup j (s_swaps (update_expired s)) =
+  match lookup j (s_swaps s) with
+  | None => None
+  | Some u => if status_eqb (sw_status u) Open && (sw_expire u <=? s_height s)
+              then Some (expired_of u) else Some u
+  end.
+Proof.
+  intros I. unfold update_expired.
+  assert (ND : NoDup (filter (fun x : Z * id => fst x <=? s_height s) (s_byblock s))).
+  { apply NoDup_filter. destruct I as [IT _]. exact (t_bb_nodup _ _ _ _ _ _ IT). }
+  assert (Hall : forall x, In x (filter (fun x : Z * id => fst x <=? s_height s) (s_byblock s)) -> In x (s_byblock s)).
+  { intros x Hx. apply filter_In in Hx. tauto. }
+  pose proof (expire_fold_lookup e _ s I ND Hall j) as H.
+  destruct (lookup j (s_swaps s)) as [u|] eqn:El; [|exact H].
+  destruct H as [H1 H2].
+  destruct (status_eqb_spec (sw_status u) Open) as [Eo|Eo]; cbn [andb].
+  - destruct (Z.leb_spec (sw_expire u) (s_height s)) as [Le|Gt].
+    + apply H1. split; [|exact Eo]. apply filter_In. cbn [fst]. split; [|apply Z.leb_le; exact Le].
+      destruct I as [IT _]. apply (t_bb _ _ _ _ _ _ IT). exists u. auto.
+    + apply H2. intros [Hin _]. apply filter_In in Hin. cbn [fst] in Hin. destruct Hin as [_ Hle].
+      apply Z.leb_le in Hle. lia.
+  - apply H2. intros [_ E]. contradiction.
+Qed.
+
+Lemma delete_fold_lookup e : forall l s,
+  Inv e s -> NoDup l -> (forall x, In x l -> In x (s_longterm s)) ->
+  forall j, match lookup j (s_swaps s) with
+  | None => lookup j (s_swaps (fold_left delete_one l s)) = None
+  | Some u =>
+      (In (sw_closed u + LONGTERM, j) l /\ sw_status u = Completed ->
+         lookup j (s_swaps (fold_left delete_one l s)) = None) /\
+      (~ (In (sw_closed u + LONGTERM, j) l /\ sw_status u = Completed) ->
+         lookup j (s_swaps (fold_left delete_one l s)) = Some u)
+  end.
+Proof.
+  induction l as [|[h i] r IH]; intros s I ND Hall j; cbn [fold_left].
+  - destruct (lookup j (s_swaps s)) as [u|]; [|reflexivity]. split; [intros [[] _]|reflexivity].
+  - inversion ND as [|? ? Hn ND']; subst.
+    destruct (delete_one_inv e s h i I (Hall _ (or_introl eq_refl))) as (w & Hl & Ho & He & Eq & I1).
+    assert (Hall' : forall x, In x r -> In x (s_longterm (delete_one s (h, i)))).
+    { intros x Hx. rewrite Eq. sproj. apply ix_del_in. split; [intros ->; contradiction|].
+      apply Hall. right. exact Hx. }
+    specialize (IH (delete_one s (h, i)) I1 ND' Hall' j).
+    assert (Esw : s_swaps (delete_one s (h, i)) = del_swap i (s_swaps s)) by (rewrite Eq; reflexivity).
+    rewrite Esw in IH.
+    assert (K : NoDup (map fst (s_swaps s))) by (destruct I as [IT _]; exact (t_keys _ _ _ _ _ _ IT)).
+    rewrite (lookup_del _ _ _ K) in IH.
+    destruct (id_eqb_spec j i) as [E|N].
+    + subst j. rewrite Hl. split.
+      * intros _. exact IH.
+      * intros D. exfalso. apply D. split; [left; rewrite He; reflexivity|exact Ho].
+    + destruct (lookup j (s_swaps s)) as [u|]; [|exact IH]. destruct IH as [IH1 IH2]. split.
+      * intros [[E|Hin] Hu]; [inversion E; congruence|]. apply IH1. auto.
+      * intros D. apply IH2. intros [Hin Hu]. apply D. split; [right; exact Hin|exact Hu].
+Qed.
+
+Lemma delete_closed_lookup e s j : Inv e s ->
+  lookup j (s_swaps (delete_closed s)) =
+  match lookup j (s_swaps s) with
+  | None => None
+  | Some u => if status_eqb (sw_status u) Completed && (sw_closed u + LONGTERM <=? s_height s)
+              then None else Some u
+  end.
+Proof.
+  intros I. unfold delete_closed.
+  assert (ND : NoDup (filter (fun x : Z * id => fst x <=? s_height s) (s_longterm s))).
+  { apply NoDup_filter. destruct I as [IT _]. exact (t_lt_nodup _ _ _ _ _ _ IT). }
+  assert (Hall : forall x, In x (filter (fun x : Z * id => fst x <=? s_height s) (s_longterm s)) -> In x (s_longterm s)).
+  { intros x Hx. apply filter_In in Hx. tauto. }
+  pose proof (delete_fold_lookup e _ s I ND Hall j) as H.
+  destruct (lookup j (s_swaps s)) as [u|] eqn:El; [|exact H].
+  destruct H as [H1 H2].
+  destruct (status_eqb_spec (sw_status u) Completed) as [Eo|Eo]; cbn [andb].
+  - destruct (Z.leb_spec (sw_closed u + LONGTERM) (s_height s)) as [Le|Gt].
+    + apply H1. split; [|exact Eo]. apply filter_In. cbn [fst]. split; [|apply Z.leb_le; exact Le].
+      destruct I as [IT _]. apply (t_lt _ _ _ _ _ _ IT). exists u. auto.
+    + apply H2. intros [Hin _]. apply filter_In in Hin. cbn [fst] in Hin. destruct Hin as [_ Hle].
+      apply Z.leb_le in Hle. lia.
+  - apply H2. intros [_ E]. contradiction.
+Qed.
+
+(* the exact effect of BeginBlocker at height h on every swap *)
+Lemma begin_block_lookup e s h t j : Inv e s ->
+  lookup j (s_swaps (begin_block e s h t)) =
+  match lookup j (s_swaps s) with
+  | None => None
+  | Some u =>
+      if status_eqb (sw_status u) Open && (sw_expire u <=? h) then Some (expired_of u)
+      else if status_eqb (sw_status u) Completed && (sw_closed u + LONGTERM <=? h) then None
+      else Some u
+  end.
+Proof.
+  intros I. unfold begin_block.
+  pose proof (set_clock_inv e s h t I) as I0.
+  destruct (update_time_limits_same e (set_clock s h t)) as [SS Hh].
+  pose proof (same_but_sup_inv e _ _ SS I0) as I1.
+  destruct SS as (A1 & _).
+  destruct (update_expired_inv e _ I1) as [I2 (B1 & _)].
+  rewrite (delete_closed_lookup e _ j I2), (update_expired_lookup e _ j I1).
+  rewrite B1, Hh, A1. sproj.
+  destruct (lookup j (s_swaps s)) as [u|]; [|reflexivity].
+  destruct (status_eqb_spec (sw_status u) Open) as [Eo|Eo]; cbn [andb].
+  - destruct (sw_expire u <=? h); cbn [expired_of with_status sw_status status_eqb andb]; [reflexivity|].
+    rewrite Eo. reflexivity.
+  - reflexivity.
+Qed.
+
+(* allowed changes of the record stored under one id by one operation *)
+Inductive sw_change (e : env) (s : state) (o : op) (i : id) : option swap -> option swap -> Prop :=
+| ch_same x : sw_change e s o i x x
+| ch_create w h ts span sender recip soc coins cross :
+    o = Create h ts span sender recip soc coins cross -> i = (h, sender, soc) ->
+    sw_status w = Open -> sw_closed w = 0 -> sw_id w = i ->
+    sw_change e s o i None (Some w)
+| ch_claim w from secret :
+    o = Claim from i secret -> sw_status w = Open -> e_hash e secret (sw_ts w) = sw_hash w ->
+    sw_change e s o i (Some w) (Some (with_status w Completed (s_height s)))
+| ch_refund w from :
+    o = Refund from i -> sw_status w = Expired ->
+    sw_change e s o i (Some w) (Some (with_status w Completed (s_height s)))
+| ch_expire w h t :
+    o = BeginBlock h t -> sw_status w = Open -> sw_expire w <= h ->
+    sw_change e s o i (Some w) (Some (with_status w Expired (sw_closed w)))
+| ch_delete w h t :
+    o = BeginBlock h t -> sw_status w = Completed -> sw_closed w + LONGTERM <= h ->
+    sw_change e s o i (Some w) None.
+
+Theorem lifecycle e s o s' : Inv e s -> step e s o = Ok s' tt ->
+  forall i, sw_change e s o i (lookup i (s_swaps s)) (lookup i (s_swaps s')).
+Proof.
+  intros I H j.
+  destruct o as [h ts span sender recip soc coins cross|from i secret|from i|h t]; cbn [step] in H.
+  - apply create_shape in H.
+    destruct H as (d & x & a & dir & sp & bal' & -> & Hl & Hm & Ha & Hact & Hx & Hts & Hd & ->). sproj.
+    rewrite lookup_set. destruct (id_eqb_spec j (h, sender, soc)) as [->|N]; [|constructor].
+    rewrite Hl. eapply ch_create; try reflexivity.
+  - apply claim_shape in H. destruct H as (w & Hl & Ho & Hh & H). cbv zeta in H.
+    assert (E : s_swaps s' = set_swap i (with_status w Completed (s_height s)) (s_swaps s)).
+    { destruct H as [(_ & ? & ? & ? & _ & _ & _ & _ & _ & ->)|(_ & ? & ? & _ & _ & _ & ->)]; reflexivity. }
+    rewrite E, lookup_set. destruct (id_eqb_spec j i) as [->|N]; [|constructor].
+    rewrite Hl. eapply ch_claim; eauto.
+  - apply refund_shape in H. destruct H as (w & Hl & Ho & H). cbv zeta in H.
+    assert (E : s_swaps s' = set_swap i (with_status w Completed (s_height s)) (s_swaps s)).
+    { destruct H as [(_ & ? & _ & ->)|(_ & ? & _ & _ & _ & ->)]; reflexivity. }
+    rewrite E, lookup_set. destruct (id_eqb_spec j i) as [->|N]; [|constructor].
+    rewrite Hl. eapply ch_refund; eauto.
+  - inversion H; subst s'. rewrite (begin_block_lookup e s h t j I).
+    destruct (lookup j (s_swaps s)) as [u|]; [|constructor].
+    destruct (status_eqb_spec (sw_status u) Open) as [Eo|Eo]; cbn [andb].
+    + destruct (Z.leb_spec (sw_expire u) h).
+      * eapply ch_expire; eauto.
+      * rewrite Eo. cbn. constructor.
+    + destruct (status_eqb_spec (sw_status u) Completed) as [Ec|Ec]; cbn [andb]; [|constructor].
+      destruct (Z.leb_spec (sw_closed u + LONGTERM) h); [|constructor].
+      eapply ch_delete; eauto.
+Qed.
+
+(** * Refunds only after the expiry height (block heights do not decrease) *)
+
+Definition op_mono (s : state) (o : op) : Prop :=
+  match o with BeginBlock h _ => s_height s <= h | _ => True end.
+
+Definition InvH (s : state) : Prop :=
+  forall i w, lookup i (s_swaps s) = Some w -> sw_status w = Expired -> sw_expire w <= s_height s.
+
+Lemma begin_block_height e s h t : Inv e s -> s_height (begin_block e s h t) = h.
+Proof.
+  intros I. unfold begin_block.
+  pose proof (set_clock_inv e s h t I) as I0.
+  destruct (update_time_limits_same e (set_clock s h t)) as [SS Hh].
+  pose proof (same_but_sup_inv e _ _ SS I0) as I1.
+  destruct (update_expired_inv e _ I1) as [I2 (B1 & _)].
+  destruct (delete_closed_inv e _ I2) as [I3 (C1 & _)].
+  rewrite C1, B1, Hh. reflexivity.
+Qed.
+
+Lemma step_height e s o s' : Inv e s -> step e s o = Ok s' tt ->
+  s_height s' = match o with BeginBlock h _ => h | _ => s_height s end.
+Proof.
+  intros I H.
+  destruct o as [h ts span sender recip soc coins cross|from i secret|from i|h t]; cbn [step] in H.
+  - apply create_shape in H.
+    destruct H as (d & x & a & dir & sp & bal' & _ & _ & _ & _ & _ & _ & _ & _ & ->). reflexivity.
+  - apply claim_shape in H. destruct H as (w & _ & _ & _ & H). cbv zeta in H.
+    destruct H as [(_ & ? & ? & ? & _ & _ & _ & _ & _ & ->)|(_ & ? & ? & _ & _ & _ & ->)]; reflexivity.
+  - apply refund_shape in H. destruct H as (w & _ & _ & H). cbv zeta in H.
+    destruct H as [(_ & ? & _ & ->)|(_ & ? & _ & _ & _ & ->)]; reflexivity.
+  - inversion H; subst. apply begin_block_height. exact I.
+Qed.
+
+Lemma step_invH e s o s' : Inv e s -> InvH s -> op_mono s o -> step e s o = Ok s' tt -> InvH s'.
+Proof.
+  intros I IH Hm H j w' Hl He.
+  pose proof (lifecycle e s o s' I H j) as C.
+  pose proof (step_height e s o s' I H) as Eh.
+  rewrite Hl in C. inversion C; subst.
+  - (* unchanged *)
+    match goal with E : lookup j (s_swaps s) = Some w' |- _ => specialize (IH j w' E He) end.
+    destruct o; cbn [op_mono] in Hm; rewrite Eh; lia.
+  - congruence.
+  - cbn in He. discriminate.
+  - cbn in He. discriminate.
+  - cbn [with_status sw_expire] in *. rewrite Eh. assumption.
+Qed.
+
+(* histories in which the module account never signs and block heights do not decrease *)
+Fixpoint hist_ok (e : env) (s : state) (ops : list op) : Prop :=
+  match ops with
+  | [] => True
+  | o :: r => op_ok e o /\ op_mono s o /\ hist_ok e (step' e s o) r
+  end.
+
+Theorem run_inv_height e ops : forall s, env_wf e -> hist_ok e s ops -> Inv e s -> InvH s ->
+  Inv e (run e s ops) /\ InvH (run e s ops).
+Proof.
+  induction ops as [|o r IH]; intros s We Hh I IHt; cbn [run fold_left]; [split; assumption|].
+  destruct Hh as (Ho & Hm & Hr).
+  apply IH; try assumption.
+  - apply step'_inv; assumption.
+  - unfold step'. destruct (step e s o) as [s' []| |] eqn:E; try exact IHt.
+    eapply step_invH; eassumption.
+Qed.
+
+Lemma refund_after_expiry e s from i s' : InvH s -> refund e s from i = Ok s' tt ->
+  exists w, lookup i (s_swaps s) = Some w /\ sw_status w = Expired /\ sw_expire w <= s_height s.
+Proof.
+  intros IH H. apply refund_gate in H. destruct H as (w & Hl & He & _).
+  exists w. split; [exact Hl|]. split; [exact He|]. apply (IH i w Hl He).
+Qed.
+
+(** * The gates do not get stuck: an open swap can be claimed with a preimage, an expired
+      swap can be refunded (given that the bank does not block the receiving account) *)
+
+Lemma live_weight_le e s i w dir : Inv e s -> lookup i (s_swaps s) = Some w ->
+  wt (sw_denom w) dir w <= ssum (wt (sw_denom w) dir) (s_swaps s).
+Proof.
+  intros [IT _] Hl. apply ssum_ge with i; [|exact Hl].
+  intros [j u] Hp. cbn [snd]. apply wt_nonneg.
+  apply in_lookup in Hp; [|exact (t_keys _ _ _ _ _ _ IT)].
+  destruct (t_rec _ _ _ _ _ _ IT j u Hp) as (_ & Hx & _). exact Hx.
+Qed.
+
+Lemma claim_succeeds e s from i secret w :
+  Inv e s -> lookup i (s_swaps s) = Some w -> sw_status w = Open ->
+  e_hash e secret (sw_ts w) = sw_hash w ->
+  (sw_dir w = Incoming -> e_blocked e (sw_recip w) = false) ->
+  exists s', claim e s from i secret = Ok s' tt.
+Proof.
+  intros I Hl Ho Hh Hb. pose proof I as [IT IC].
+  destruct (t_rec _ _ _ _ _ _ IT i w Hl) as (_ & Hx & _ & _ & _ & a & Ha & _).
+  assert (Hn : sw_status w <> Completed) by (rewrite Ho; discriminate).
+  pose proof (IC (sw_denom w)) as (C1 & C2 & C3 & C4 & C5 & C6 & C7 & C8).
+  destruct (C8 a Ha) as [L1 L2].
+  unfold claim. rewrite Hl, Ho. cbn [status_eqb negb].
+  rewrite Hh. unfold sw_id. rewrite id_eqb_refl. cbn [negb].
+  destruct (sw_dir w) eqn:Ed.
+  - pose proof (live_weight_le e s i w Incoming I Hl) as G. rewrite (wt_val _ _ _ Hn), Ed, Nat.eqb_refl in G. cbn in G.
+    unfold dec_incoming. destruct (Z.ltb_spec (sp_inc (s_sup s (sw_denom w)) - sw_amt w) 0); [lia|].
+    rewrite Ha. unfold inc_current. cbn [sp_cur sp_tl sp_inc].
+    destruct (Z.ltb_spec (a_limit a) (sp_cur (s_sup s (sw_denom w)) + sw_amt w)); [lia|].
+    assert (Hsend : forall sp2, exists s', match bank_m2a e (bank_mint (set_sup s (sw_denom w) sp2) (e_mod e) (sw_denom w) (sw_amt w)) (sw_recip w) (sw_denom w) (sw_amt w) with
+        | Some s2 => Ok (close_swap s2 i w ClaimIn (sw_recip w) true) tt | None => Err end = Ok s' tt).
+    { intros sp2. unfold bank_m2a. rewrite (Hb eq_refl). unfold bank_send, bank_mint. sproj.
+      rewrite upd2_at, !Nat.eqb_refl. cbn [andb].
+      destruct (Z.ltb_spec 0 (sw_amt w)); [|lia]. cbn [andb].
+      pose proof (ssum_nonneg (wt (sw_denom w) Outgoing) (s_swaps s)) as Gp.
+      destruct (Z.leb_spec (sw_amt w) (s_bal s (e_mod e) (sw_denom w) + sw_amt w)).
+      - eexists; reflexivity.
+      - exfalso. assert (0 <= ssum (wt (sw_denom w) Outgoing) (s_swaps s)); [|lia].
+        apply Gp. intros [j u] Hp. cbn [snd]. apply wt_nonneg.
+        apply in_lookup in Hp; [|exact (t_keys _ _ _ _ _ _ IT)].
+        destruct (t_rec _ _ _ _ _ _ IT j u Hp) as (_ & Hxx & _). exact Hxx. }
+    destruct (a_tlimited a) eqn:Et.
+    + specialize (L2 eq_refl).
+      destruct (Z.ltb_spec (a_tlimit a) (sp_tl (s_sup s (sw_denom w)) + sw_amt w)); [lia|]. apply Hsend.
+    + apply Hsend.
+  - pose proof (live_weight_le e s i w Outgoing I Hl) as G. rewrite (wt_val _ _ _ Hn), Ed, Nat.eqb_refl in G. cbn in G.
+    unfold dec_outgoing. destruct (Z.ltb_spec (sp_out (s_sup s (sw_denom w)) - sw_amt w) 0); [lia|].
+    unfold dec_current. cbn [sp_cur sp_out].
+    destruct (Z.ltb_spec (sp_cur (s_sup s (sw_denom w)) - sw_amt w) 0); [lia|].
+    unfold bank_burn. sproj.
+    destruct (Z.ltb_spec 0 (sw_amt w)); [|lia]. cbn [andb].
+    destruct (Z.leb_spec (sw_amt w) (s_bal s (e_mod e) (sw_denom w))); [|lia].
+    eexists; reflexivity.
+Qed.
+
+Lemma refund_succeeds e s from i w :
+  Inv e s -> lookup i (s_swaps s) = Some w -> sw_status w = Expired ->
+  (sw_dir w = Outgoing -> e_blocked e (sw_sender w) = false) ->
+  exists s', refund e s from i = Ok s' tt.
+Proof.
+  intros I Hl Ho Hb. pose proof I as [IT IC].
+  destruct (t_rec _ _ _ _ _ _ IT i w Hl) as (_ & Hx & _).
+  assert (Hn : sw_status w <> Completed) by (rewrite Ho; discriminate).
+  pose proof (IC (sw_denom w)) as (C1 & C2 & C3 & C4 & C5 & C6 & C7 & C8).
+  unfold refund. rewrite Hl, Ho. cbn [status_eqb negb].
+  destruct (sw_dir w) eqn:Ed.
+  - pose proof (live_weight_le e s i w Incoming I Hl) as G. rewrite (wt_val _ _ _ Hn), Ed, Nat.eqb_refl in G. cbn in G.
+    unfold dec_incoming. destruct (Z.ltb_spec (sp_inc (s_sup s (sw_denom w)) - sw_amt w) 0); [lia|].
+    eexists; reflexivity.
+  - pose proof (live_weight_le e s i w Outgoing I Hl) as G. rewrite (wt_val _ _ _ Hn), Ed, Nat.eqb_refl in G. cbn in G.
+    unfold dec_outgoing. destruct (Z.ltb_spec (sp_out (s_sup s (sw_denom w)) - sw_amt w) 0); [lia|].
+    unfold bank_m2a. rewrite (Hb eq_refl). unfold bank_send. sproj.
+    destruct (Z.ltb_spec 0 (sw_amt w)); [|lia]. cbn [andb].
+    destruct (Z.leb_spec (sw_amt w) (s_bal s (e_mod e) (sw_denom w))); [|lia].
+    eexists; reflexivity.
+Qed.
+
+(** * The boolean invariant evaluated by the checker is implied by the invariant *)
+
+Lemma nodup_b_true {A} (eqb : A -> A -> bool) (l : list A) :
+  (forall a b, reflect (a = b) (eqb a b)) -> NoDup l -> nodup_b eqb l = true.
+Proof.
+  intros R. induction l as [|x r IH]; intros ND; cbn [nodup_b]; [reflexivity|].
+  inversion ND as [|? ? Hn ND']; subst. rewrite (IH ND'), Bool.andb_true_r.
+  destruct (existsb (eqb x) r) eqn:E; [|reflexivity].
+  apply existsb_exists in E. destruct E as (y & Hy & Ey). destruct (R x y); [subst; contradiction|discriminate].
+Qed.
+
+Lemma serials_nodup (l : list (id * swap)) :
+  NoDup (map fst l) ->
+  (forall i j w1 w2, lookup i l = Some w1 -> lookup j l = Some w2 -> sw_serial w1 = sw_serial w2 -> i = j) ->
+  NoDup (map (fun p => sw_serial (snd p)) l).
+Proof.
+  intros K S.
+  assert (S' : forall i j w1 w2, In (i, w1) l -> In (j, w2) l -> sw_serial w1 = sw_serial w2 -> i = j).
+  { intros i j w1 w2 H1 H2. apply S; apply in_lookup; assumption. }
+  clear S. induction l as [|[k u] r IH]; cbn [map]; [constructor|].
+  inversion K as [|? ? Hn K']; subst. constructor.
+  - intros Hin. apply in_map_iff in Hin. destruct Hin as ([j w2] & Es & Hj). cbn [snd] in Es.
+    assert (k = j) by (eapply S'; [left; reflexivity|right; exact Hj|symmetry; exact Es]). subst j.
+    apply Hn. change k with (fst (k, w2)). apply in_map. exact Hj.
+  - apply IH; [exact K'|]. intros i j w1 w2 H1 H2. apply S'; right; assumption.
+Qed.
+
+Lemma existsb_serial_in n (lg : list pay) :
+  existsb (fun q => Nat.eqb (p_serial q) n) lg = true <-> In n (map p_serial lg).
+Proof.
+  rewrite existsb_exists, in_map_iff. split.
+  - intros (q & Hq & E). apply Nat.eqb_eq in E. exists q. auto.
+  - intros (q & E & Hq). exists q. split; [exact Hq|]. apply Nat.eqb_eq. exact E.
+Qed.
+
+Theorem inv_b_complete e s : Inv e s -> inv_b e s = true.
+Proof.
+  intros [IT IC]. destruct IT as [K R S BN B LN L GN GL GD].
+  unfold inv_b. repeat (apply andb_true_intro; split).
+  - apply nodup_b_true; [exact id_eqb_spec|exact K].
+  - apply nodup_b_true; [exact Nat.eqb_spec|]. apply serials_nodup; assumption.
+  - apply nodup_b_true; [exact Nat.eqb_spec|exact GN].
+  - apply nodup_b_true; [exact ent_eqb_spec|exact BN].
+  - apply nodup_b_true; [exact ent_eqb_spec|exact LN].
+  - apply forallb_forall. intros [i w] Hin. apply in_lookup in Hin; [|exact K].
+    destruct (R i w Hin) as (Ei & Hx & Ls & _ & _ & a & Ha & Hi & Ho).
+    unfold swap_wf_b. repeat (apply andb_true_intro; split).
+    + rewrite <- Ei. apply id_eqb_refl.
+    + apply Z.ltb_lt. exact Hx.
+    + apply Nat.ltb_lt. exact Ls.
+    + rewrite Ha. destruct (sw_dir w).
+      * apply Nat.eqb_eq. auto.
+      * destruct (Ho eq_refl) as [N E]. apply andb_true_intro. split; [|apply Nat.eqb_eq; exact E].
+        destruct (Nat.eqb_spec (sw_sender w) (a_deputy a)); [contradiction|reflexivity].
+    + destruct (sw_status w) eqn:Es; [| |reflexivity].
+      * apply ix_mem_in. apply B. exists w. auto.
+      * apply andb_true_intro. split.
+        -- apply ix_mem_in. apply L. exists w. auto.
+        -- apply existsb_serial_in. apply (GD i w Hin). exact Es.
+    + destruct (sw_status w) eqn:Es; [|reflexivity|].
+      * destruct (existsb _ (g_log s)) eqn:E; [|reflexivity].
+        apply existsb_serial_in in E. apply (GD i w Hin) in E. congruence.
+      * destruct (existsb _ (g_log s)) eqn:E; [|reflexivity].
+        apply existsb_serial_in in E. apply (GD i w Hin) in E. congruence.
+  - apply forallb_forall. intros [h i] Hin. cbn [fst snd]. apply B in Hin. destruct Hin as (w & Hl & Ho & He).
+    rewrite Hl, Ho, He. cbn. apply Z.eqb_refl.
+  - apply forallb_forall. intros [h i] Hin. cbn [fst snd]. apply L in Hin. destruct Hin as (w & Hl & Ho & He).
+    rewrite Hl, Ho, He. cbn. apply Z.eqb_refl.
+  - apply forallb_forall. intros q Hq. apply Nat.ltb_lt. apply GL. exact Hq.
+  - apply forallb_forall. intros d _. specialize (IC d). unfold cnt_ok in IC.
+    destruct IC as (C1 & C2 & C3 & C4 & C5 & C6 & C7 & C8).
+    repeat (apply andb_true_intro; split); try (apply Z.eqb_eq; assumption); try (apply Z.leb_le; assumption).
+    destruct (find_asset d (e_assets e)) as [a|] eqn:Ea; [|reflexivity].
+    destruct (C8 a eq_refl) as [L1 L2]. apply andb_true_intro. split; [apply Z.leb_le; exact L1|].
+    destruct (a_tlimited a); cbn [negb orb]; [|reflexivity]. apply Z.leb_le. apply L2. reflexivity.
+Qed.
+
+(** * Time-limited accounting: the exact effect of UpdateTimeBasedSupplyLimits *)
+
+Lemma tick_fold_sup dt : forall l s d,
+  NoDup (map a_denom l) ->
+  s_sup (fold_left (fun st a => set_sup st (a_denom a) (tick_supply a (s_sup st (a_denom a)) dt)) l s) d =
+  match find_asset d l with
+  | Some a => tick_supply a (s_sup s d) dt
+  | None => s_sup s d
+  end.
+Proof.
+  induction l as [|a r IH]; intros s d ND; cbn [fold_left find_asset map]; [reflexivity|].
+  cbn [map] in ND. inversion ND as [|? ? Hn ND']; subst.
+  rewrite IH by exact ND'. cbn [set_sup s_sup]. rewrite upd_at.
+  destruct (Nat.eqb_spec (a_denom a) d) as [E|N].
+  - subst d. rewrite Nat.eqb_refl.
+    destruct (find_asset (a_denom a) r) as [b|] eqn:Eb; [|reflexivity].
+    exfalso. apply Hn. pose proof (find_asset_denom _ _ _ Eb) as Ed. rewrite <- Ed.
+    clear - Eb. induction r as [|c r IH]; cbn [find_asset] in Eb; [discriminate|].
+    destruct (Nat.eqb (a_denom c) (a_denom a)); [inversion Eb; subst; left; reflexivity|right; apply IH; exact Eb].
+  - destruct (Nat.eqb_spec d (a_denom a)); [congruence|]. reflexivity.
+Qed.
+
+Lemma begin_block_supply e s h t d :
+  Inv e s -> NoDup (map a_denom (e_assets e)) -> e_assets e <> [] ->
+  let s' := begin_block e s h t in
+  s_prev s' = t /\
+  s_sup s' d = match find_asset d (e_assets e) with
+               | Some a => tick_supply a (s_sup s d) (t - s_prev s)
+               | None => s_sup s d
+               end.
+Proof.
+  intros I ND Hne. cbv zeta. unfold begin_block.
+  pose proof (set_clock_inv e s h t I) as I0.
+  pose proof (same_but_sup_inv e _ _ (proj1 (update_time_limits_same e (set_clock s h t))) I0) as I1.
+  destruct (update_expired_inv e _ I1) as [I2 (B1 & B2 & B3 & B4 & _)].
+  destruct (delete_closed_inv e _ I2) as [I3 (C1 & C2 & C3 & C4 & _)].
+  rewrite C3, C4, B3, B4.
+  unfold update_time_limits. destruct (e_assets e) as [|a r] eqn:Ea; [contradiction|].
+  cbn [set_prev s_prev s_sup set_clock s_time].
+  split; [reflexivity|].
+  rewrite <- Ea in *. rewrite (tick_fold_sup _ _ _ d ND). reflexivity.
+Qed.
+
+Lemma claim_supply e s from i secret s' :
+  claim e s from i secret = Ok s' tt ->
+  exists w, lookup i (s_swaps s) = Some w /\
+    let d := sw_denom w in let x := sw_amt w in let sp := s_sup s d in
+    (forall d', d' <> d -> s_sup s' d' = s_sup s d') /\
+    match sw_dir w with
+    | Incoming => exists a, find_asset d (e_assets e) = Some a /\
+        s_sup s' d = mkSup (sp_inc sp - x) (sp_out sp) (sp_cur sp + x)
+                           (if a_tlimited a then sp_tl sp + x else sp_tl sp) (sp_elapsed sp) /\
+        sp_cur sp + x <= a_limit a /\ (a_tlimited a = true -> sp_tl sp + x <= a_tlimit a)
+    | Outgoing =>
+        s_sup s' d = mkSup (sp_inc sp) (sp_out sp - x) (sp_cur sp - x) (sp_tl sp) (sp_elapsed sp)
+    end.
+Proof.
+  intros H. apply claim_shape in H. destruct H as (w & Hl & _ & _ & H). cbv zeta in H.
+  exists w. split; [exact Hl|]. cbv zeta.
+  destruct H as [(Ed & sp1 & a & sp2 & E1 & Ea & E2 & _ & _ & ->)|(Ed & sp1 & sp2 & E1 & E2 & _ & ->)];
+    rewrite Ed; unfold closed_state; cbn [s_sup].
+  - split; [intros d' N; rewrite upd_at; destruct (Nat.eqb_spec d' (sw_denom w)); [contradiction|reflexivity]|].
+    exists a. split; [exact Ea|]. rewrite upd_at, Nat.eqb_refl.
+    apply dec_incoming_some in E1. destruct E1 as (-> & _).
+    apply inc_current_some in E2. destruct E2 as (-> & L1 & L2). cbn [sp_inc sp_out sp_cur sp_tl sp_elapsed] in *.
+    repeat split; assumption.
+  - split; [intros d' N; rewrite upd_at; destruct (Nat.eqb_spec d' (sw_denom w)); [contradiction|reflexivity]|].
+    rewrite upd_at, Nat.eqb_refl.
+    apply dec_outgoing_some in E1. destruct E1 as (-> & _).
+    apply dec_current_some in E2. destruct E2 as (-> & _). reflexivity.
+Qed.
